@@ -32,11 +32,15 @@ def expression_set(tier):
     # queries that behave alike) - and the function tells a range from an enumeration by the argument's type
     twins += [("test", "fields", ("x",), "within", (("TUPLE", 0, 2),)), ("test", "fields", ("x",), "within", (("LIST", 0, 2),)),
               ("test", "fields", ("x",), "within", (("TUPLE", -1, 2),)), ("test", "fields", ("x",), "within", (("LIST", -1, 2),))]
+    # the same key name addressed as a tag and as a field
+    twins += [("exists", "tags", "x"), ("exists", "fields", "x"), ("exists", "tags", "k"), ("exists", "fields", "k"),
+              ("cmp", "tags", ("x",), "==", None), ("cmp", "fields", ("x",), "==", None), ("cmp", "tags", ("k",), "!=", None), ("cmp", "fields", ("k",), "!=", None),
+              ("noop", "tags", ("k",)), ("noop", "fields", ("k",))]
     A = A + [t for t in twins if t not in A]
     E = list(A) + [("not", a) for a in A]
     sub = quick_atoms(A)[: (18 if tier == "quick" else 34)]
     lits = sub if tier == "quick" else sub + [("not", a) for a in sub[:12]]
-    lits = lits + naive[:3] + twins[:7] + twins[-13:-10] + twins[-4:-2]
+    lits = lits + naive[:3] + twins[:7] + twins[-23:-20] + twins[-14:-12] + twins[-10:-6]
     for a in lits:
         for b in lits:
             E.append(("and", a, b))
